@@ -481,6 +481,7 @@ func (el *eventloop) ticker() {
 	el.nextTicker = now.Add(time.Second)
 
 	if EngineGlobal.ClusterNodes.serverChanged {
+		verifTopoPoint("t-pools")
 		logging.Infof("[server changed] start load new server, old redis nodes: %+v", EngineGlobal.ProxyAddrs)
 
 		for k, v := range EngineGlobal.ProxyPool {
@@ -503,6 +504,7 @@ func (el *eventloop) ticker() {
 			}
 		}
 
+		verifTopoPoint("t-table")
 		EngineGlobal.Slots2Node.Reset()
 		for _, rs := range EngineGlobal.ClusterNodes.Replicasets {
 			for _, slotRange := range rs.Master.Slots {
@@ -517,6 +519,7 @@ func (el *eventloop) ticker() {
 			EngineGlobal.ProxyAddrs = append(EngineGlobal.ProxyAddrs, k)
 		}
 
+		verifTopoPoint("t-clear")
 		EngineGlobal.ClusterNodes.serverChanged = false
 		logging.Infof("[server changed] end load new server, cost: %s, new redis nodes: %+v", time.Since(now), EngineGlobal.ProxyAddrs)
 	}
